@@ -111,8 +111,11 @@ class PicklingSyncPool:
     test is unmodified and takes its multi-process branch (chunking, task order, joining of results) without
     forking or sleeping, so that branch can be exercised thousands of times."""
 
-    def __init__(self, processes=None, *a, **k):
+    def __init__(self, processes=None, initializer=None, initargs=(), *a, **k):
         self.processes = processes
+        if initializer is not None:
+            # what every worker process would do once at start-up (a forked worker inherits the arguments)
+            initializer(*tuple(initargs))
 
     def __enter__(self):
         return self
@@ -174,6 +177,18 @@ class PicklingSyncPool:
         pass
 
 
+def check_harness_faults(reset=False):
+    """raise HarnessError if the emulation was asked for something it does not emulate since the last reset"""
+    rt = setup()
+    if reset:
+        del rt.harness_faults[:]
+        return
+    if rt.harness_faults:
+        msg = '; '.join(rt.harness_faults[:3])
+        del rt.harness_faults[:]
+        raise HarnessError('the emulation of parsing.pyx was asked for an operation it does not emulate: ' + msg)
+
+
 def run_parser(case, grammar, sentences=None, via_pool=False, **override):
     """one call of depccg.parsing.run over the sentences of the case; returns (results, faults)
     faults: exceptions swallowed by noexcept callbacks / undefined behaviour surfaced by the shim.
@@ -201,9 +216,15 @@ def run_parser(case, grammar, sentences=None, via_pool=False, **override):
             with pool_installed(PicklingSyncPool):
                 return depccg.parsing.run(docs, scores, cats, roots_, grammar.binary, grammar.unary, **cfg)
         return depccg.parsing.run(docs, scores, cats, roots_, grammar.binary, grammar.unary, **cfg)
+    del rt.harness_faults[:]
     try:
         results = call(roots)
+    except HarnessError:
+        raise
     except Exception:
+        if rt.harness_faults:
+            raise HarnessError('the emulation of parsing.pyx was asked for an operation it does not emulate: '
+                               + '; '.join(rt.harness_faults[:3]))
         if len(set(roots)) < len(roots):
             # a root named twice is accepted today; a library that refuses it (as it refuses repeated categories)
             # breaks no statement: if the call goes through without the repetition the case is out of the domain
@@ -215,6 +236,9 @@ def run_parser(case, grammar, sentences=None, via_pool=False, **override):
             else:
                 raise OutOfDomain('repeated root categories are refused')
         raise
+    if rt.harness_faults:
+        raise HarnessError('the emulation of parsing.pyx was asked for an operation it does not emulate: '
+                           + '; '.join(rt.harness_faults[:3]))
     faults = [f'{type(e).__name__}: {e}' for e in rt.unraisable] + list(rt.faults)
     return results, docs, faults
 
